@@ -96,6 +96,8 @@ func aliasReach(s *Summary, root string) []aliasHit {
 }
 
 func checkC18(p *Prog, r *Report) {
+	r.rule("C18.wrapper-new: Wrapper.New wraps reflect.New(<wrapped type>).Interface(), a zero value, never the wrapped value itself")
+	checkWrapperNew(p, r, "C18")
 	r.rule("R9 fresh copy (mod/alias analysis): no memory of the source is reachable from the object returned by SoftResource.Copy / SoftResource.New / Type.Copy through a stored slice, map, pointer to a struct/slice/map or a value of unknown type; func values and pointers to immutable scalars are exempt with the reason recorded")
 	r.rule("R1 switch coverage: copyData has an arm for each of the 28 Go types of the kind table and for []string (a type without an arm is dropped from the copy)")
 	r.rule("C18.wrapper-copy: Wrapper.Copy builds the copy from a freshly allocated struct, sets the ID from the source's ID, ranges over all Attrs() and Rels() of the source and Sets each under the name it read; values of the mutable kinds ([]byte, *[]byte) and to-many ID lists are replaced by fresh copies (make + copy) before they are stored")
@@ -1145,11 +1147,41 @@ func checkWrapFreshStructure(p *Prog, r *Report) {
 			n++
 			good := true
 			for _, v := range origins(st.Val) {
-				if mk, ok := v.(*ssa.MakeMap); !ok || mk.Parent() != f {
+				if mk, ok := v.(*ssa.MakeMap); ok && mk.Parent() == f {
+					continue
+				}
+				// or the result of a package function that returns nothing but
+				// maps it made itself (a builder of the structure)
+				fresh := false
+				if c, idx := callOf(v); c != nil && !c.Common().IsInvoke() {
+					if g := c.Common().StaticCallee(); g != nil && g.Pkg == f.Pkg && g.Blocks != nil {
+						if idx < 0 {
+							idx = 0
+						}
+						fresh = true
+						nRet := 0
+						for _, b := range g.Blocks {
+							ret, ok := b.Instrs[len(b.Instrs)-1].(*ssa.Return)
+							if !ok || idx >= len(ret.Results) {
+								continue
+							}
+							nRet++
+							for _, rv := range origins(ret.Results[idx]) {
+								if mk, ok := rv.(*ssa.MakeMap); !ok || mk.Parent() != g {
+									fresh = false
+								}
+							}
+						}
+						if nRet == 0 {
+							fresh = false
+						}
+					}
+				}
+				if !fresh {
 					good = false
 				}
 			}
-			r.decide(good, "C18.wrap-fresh-structure", funcName(f)+":"+p.describe(st), p.pos(st.Pos()), "stores a map made here",
+			r.decide(good, "C18.wrap-fresh-structure", funcName(f)+":"+p.describe(st), p.pos(st.Pos()), "stores a map made here (or by a builder that returns only maps it made)",
 				"a Wrapper's "+fl+" map is not a map made for this wrapper: wrappers of the same struct type (a resource and its copy, or a New instance) share it, so removing or adding a field through one changes what the other reports and marshals")
 		})
 	}
